@@ -227,6 +227,9 @@ class Ref:
                 fr = self.frames.pop()
                 self.scope.pop()
                 rec['tried'].append(c)
+                rec.setdefault('causes', []).append(sorted(map(repr, r[1])) if r[0] == 'fail' else None)
+                rec.setdefault('body_failed', []).append(
+                    r[0] == 'fail' and all(isinstance(c_, tuple) and c_[0] in ('node', 'fatal') for c_ in r[1]))
                 if r[0] == 'ok':
                     self.frames[-1] |= fr
                     rec['winner'] = c
